@@ -208,10 +208,11 @@ def h_headcontent_name(ks: int, kt: int, s: str, t: str) -> bool:
         core.hash_deterministic = saved
 
 
-@harness("C18", pre=lambda B, k: 0 <= k <= 5, sel=["k: payload catalogue"], targets=["htmltools._util.hash_deterministic", "htmltools._core.head_content"])
+@harness("C18", pre=lambda B, k: 0 <= k <= 7, sel=["k: payload catalogue"], targets=["htmltools._util.hash_deterministic", "htmltools._core.head_content"])
 def h_headcontent_sha1(k: int) -> bool:
     """with the real digest: the name is 'headcontent_' + sha1(rendered content), nothing else"""
-    payloads = [("t",), (Tag("title", "x"),), ("a", HTML("<b>")), (), (Tag("style", "p{}"), None), ("é☃",)]
+    payloads = [("t",), (Tag("title", "x"),), ("a", HTML("<b>")), (), (Tag("style", "p{}"), None), ("é☃",),
+                ("x<y&",), (HTML("x<y&"),)]        # the same text as plain string and as HTML(): different rendered content
     args = pick(k, payloads)
     want = "headcontent_" + hashlib.sha1(TagList(*args).get_html_string().encode("utf-8")).hexdigest()
     d1, d2 = head_content(*args), head_content(*args)
